@@ -449,6 +449,13 @@ def run(ctx):
         case, res, what = cases[ci], results[ci], directs[ci]
         if what:
             continue       # the implementation violates the property on this case: already reported (or a known finding)
+        # the model (= specified behaviour) disagrees although the direct predicate passed or was not applicable
+        # (rank-deficient Krylov root): if this cell / query / route is a recorded defect of the pinned tree whose failure
+        # kind is a wrong value, the disagreement is that defect seen through the model
+        key = failure_key(case, res, "model value")
+        if res["kind"] == "ok" and common.kf_match(PROP, key) is not None:
+            ctx.violation({"kind": "property-failure-via-model", "case": slim(case, res)}, key=key)
+            continue
         n_model_only += 1
         reason = explain_case(ctx, lits[m])
         ctx.violation({"kind": "model-implementation-disagreement", "case": slim(case, res), "member": list(bi),
